@@ -57,11 +57,10 @@ def add (b : DispatcherBuilder) (tag : SysTag) (name : String) (dep : List Strin
 /-- `has_system` (l.129) and `contains` (l.201): `map.contains_key(name)` -/
 def hasSystem (b : DispatcherBuilder) (name : String) : Bool := (lookup b.map name).isSome
 
-/-- `num_systems` (l.121): `map.len()` — the number of *named* systems accepted so far -/
-def numSystems (b : DispatcherBuilder) : Nat := b.map.length
-
-/-- `is_empty` (l.116): `map.is_empty()` -/
-def isEmpty (b : DispatcherBuilder) : Bool := b.map.isEmpty
+/- `num_systems` (l.121) and `is_empty` (l.116) are `map.len()` / `map.is_empty()`: they count the
+*named* systems only. No property speaks about them, so they are not modelled; code that
+relies on them as "number of systems" is wrong for builders whose systems are unnamed (the
+generator produces such builders). -/
 
 /-- the accessor `add_batch` computes (l.272-282): everything the inner builder accumulated plus
 the controller's declared data, sorted and de-duplicated -/
